@@ -300,4 +300,191 @@ theorem mem_othersOf (C : Contest α) (w r c : α) : c ∈ othersOf C w r ↔ c 
 theorem nodup_othersOf (C : Contest α) (hC : C.candidates.Nodup) (w r : α) : (othersOf C w r).Nodup :=
   hC.filter _
 
+/-! ### sim_irv -/
+
+/-- L92-97: with `standing` duplicate-free, `tallies[c]` is the tally of `c` once `eliminated` are gone -/
+theorem roundTallies_spec (ballots : List (Ballot α)) (standing elim : List α) (hnd : standing.Nodup)
+    (c : α) (hc : c ∈ standing) : dictGet (roundTallies ballots standing elim) c = tally ballots c elim := by
+  have key : ∀ (bs : List (Ballot α)) (t : List (α × Nat)), c ∈ keys t →
+      dictGet (bs.foldl (fun t blt =>
+        standing.foldl (fun t c => if voteForCand c elim blt != 0 then dictIncr t c else t) t) t) c =
+      dictGet t c + tally bs c elim := by
+    intro bs
+    induction bs with
+    | nil => intro t _; simp [tally]
+    | cons b bs ih =>
+      intro t ht
+      have hstep : standing.foldl (fun t c => if voteForCand c elim b != 0 then dictIncr t c else t) t =
+          foldIncr (fun c => voteForCand c elim b != 0) standing t := rfl
+      rw [List.foldl_cons, hstep, ih _ (by rw [keys_foldIncr]; exact ht), dictGet_foldIncr _ _ _ _ ht,
+        hnd.count, if_pos hc]
+      have h1 := voteForCand_le_one c elim b
+      simp only [tally, List.map_cons, List.sum_cons]
+      by_cases h0 : voteForCand c elim b = 0
+      · simp [h0]
+      · have : voteForCand c elim b = 1 := by omega
+        simp [this]; omega
+  unfold roundTallies
+  rw [key ballots _ ((mem_keys_dictInit standing c).2 hc), dictGet_dictInit]
+  simp
+
+/-- L99-105: the candidate picked is the FIRST one of `standing` whose tally is smallest -/
+theorem pickMin_spec (t : List (α × Nat)) (standing : List α) (hne : standing ≠ []) :
+    ∃ x p q, pickMin t standing = some (x, dictGet t x) ∧ standing = p ++ x :: q ∧
+      (∀ y ∈ p, dictGet t x < dictGet t y) ∧ (∀ y ∈ q, dictGet t x ≤ dictGet t y) := by
+  have key : ∀ (l seen : List α) (acc : Option (α × Nat)),
+      (match acc with
+        | none => seen = []
+        | some (x, v) => v = dictGet t x ∧ ∃ p q, seen = p ++ x :: q ∧
+            (∀ y ∈ p, dictGet t x < dictGet t y) ∧ (∀ y ∈ q, dictGet t x ≤ dictGet t y)) →
+      (match l.foldl (fun (acc : Option (α × Nat)) c =>
+          match acc with
+          | none => some (c, dictGet t c)
+          | some (_, elimtally) => if dictGet t c < elimtally then some (c, dictGet t c) else acc) acc with
+        | none => seen ++ l = []
+        | some (x, v) => v = dictGet t x ∧ ∃ p q, seen ++ l = p ++ x :: q ∧
+            (∀ y ∈ p, dictGet t x < dictGet t y) ∧ (∀ y ∈ q, dictGet t x ≤ dictGet t y)) := by
+    intro l
+    induction l with
+    | nil => intro seen acc h; simpa using h
+    | cons c l ih =>
+      intro seen acc h
+      rw [List.foldl_cons]
+      have hs : seen ++ c :: l = (seen ++ [c]) ++ l := by simp
+      rw [hs]
+      apply ih
+      cases acc with
+      | none =>
+        simp only at h
+        subst h
+        exact ⟨rfl, [], [], rfl, by simp, by simp⟩
+      | some xv =>
+        obtain ⟨x, v⟩ := xv
+        obtain ⟨hv, p, q, hseen, hp, hq⟩ := h
+        subst hv
+        by_cases hlt : dictGet t c < dictGet t x
+        · simp only [if_pos hlt]
+          refine ⟨trivial, seen, [], rfl, ?_, by simp⟩
+          intro y hy
+          rw [hseen] at hy
+          rcases List.mem_append.1 hy with h1 | h1
+          · exact Nat.lt_trans hlt (hp y h1)
+          · rcases List.mem_cons.1 h1 with rfl | h1
+            · exact hlt
+            · exact Nat.lt_of_lt_of_le hlt (hq y h1)
+        · simp only [if_neg hlt]
+          refine ⟨trivial, p, q ++ [c], by rw [hseen]; simp, hp, ?_⟩
+          intro y hy
+          rcases List.mem_append.1 hy with h1 | h1
+          · exact hq y h1
+          · have : y = c := by simpa using h1
+            subst this; omega
+  have := key standing [] none rfl
+  unfold pickMin
+  revert this
+  generalize List.foldl _ none standing = r
+  intro this
+  cases r with
+  | none => simp at this; exact absurd this hne
+  | some xv =>
+    obtain ⟨x, v⟩ := xv
+    obtain ⟨hv, p, q, h1, h2, h3⟩ := this
+    subst hv
+    exact ⟨x, p, q, rfl, by simpa using h1, h2, h3⟩
+
+/-- the `while` loop terminates within `len(standing) - 1` iterations and raises nothing, whatever the candidate
+list -/
+theorem simLoop_total (ballots : List (Ballot α)) : ∀ (n : Nat) (standing elim : List α),
+    standing.length ≤ n + 1 →
+    ∃ s e, simLoop ballots n standing elim = Res.ok (s, e) ∧ s.length ≤ 1 ∧ (standing ≠ [] → s ≠ []) ∧
+      e.length + s.length = elim.length + standing.length := by
+  intro n
+  induction n with
+  | zero =>
+    intro standing elim h
+    have : ¬ standing.length > 1 := by omega
+    exact ⟨standing, elim, by simp [simLoop, this], by omega, id, rfl⟩
+  | succ n ih =>
+    intro standing elim h
+    by_cases hl : standing.length > 1
+    · have hne : standing ≠ [] := by intro h0; rw [h0] at hl; simp at hl
+      obtain ⟨x, p, q, hpick, hst, _, _⟩ := pickMin_spec (roundTallies ballots standing elim) standing hne
+      have hx : x ∈ standing := by rw [hst]; simp
+      have hlen : (standing.erase x).length = standing.length - 1 := List.length_erase_of_mem hx
+      obtain ⟨s, e, h1, h2, h3, h4⟩ := ih (standing.erase x) (elim ++ [x]) (by omega)
+      refine ⟨s, e, ?_, h2, fun _ => h3 (by intro h0; rw [h0] at hlen; simp at hlen; omega), ?_⟩
+      · simp only [simLoop, if_pos hl, hpick]; exact h1
+      · rw [h4, hlen]; simp; omega
+    · exact ⟨standing, elim, by simp [simLoop, hl], by omega, id, rfl⟩
+
+/-- the loop on a duplicate-free `standing`: it ends with one candidate standing; the sequence of eliminations
+followed by that candidate is an arrangement of `standing` in which every candidate, at the moment it goes, has a
+smallest tally among those still standing -/
+theorem simLoop_spec (ballots : List (Ballot α)) : ∀ (n : Nat) (standing elim : List α),
+    standing.Nodup → standing ≠ [] → standing.length ≤ n + 1 →
+    ∃ order s0, simLoop ballots n standing elim = Res.ok ([s0], elim ++ order) ∧
+      (order ++ [s0]).Perm standing ∧
+      ∀ p x q, order ++ [s0] = p ++ x :: q → ∀ y ∈ q,
+        tally ballots x (elim ++ p) ≤ tally ballots y (elim ++ p) := by
+  intro n
+  have base : ∀ (standing elim : List α), standing ≠ [] → ¬ standing.length > 1 →
+      ∃ s0, standing = [s0] := by
+    intro standing elim hne hl
+    match standing, hne, hl with
+    | [s0], _, _ => exact ⟨s0, rfl⟩
+    | _ :: _ :: _, _, hl => simp at hl
+  have fin : ∀ (s0 : α) (elim : List α) (p : List α) (x : α) (q : List α), [] ++ [s0] = p ++ x :: q → ∀ y ∈ q,
+      tally ballots x (elim ++ p) ≤ tally ballots y (elim ++ p) := by
+    intro s0 elim p x q h y hy
+    have hlen := congrArg List.length h
+    simp at hlen
+    have : q = [] := List.eq_nil_of_length_eq_zero (by omega)
+    rw [this] at hy; cases hy
+  induction n with
+  | zero =>
+    intro standing elim _ hne h
+    have hl : ¬ standing.length > 1 := by omega
+    obtain ⟨s0, rfl⟩ := base standing elim hne hl
+    exact ⟨[], s0, by simp [simLoop], List.Perm.refl _, fin s0 elim⟩
+  | succ n ih =>
+    intro standing elim hnd hne h
+    by_cases hl : standing.length > 1
+    · obtain ⟨x, p, q, hpick, hst, _, _⟩ := pickMin_spec (roundTallies ballots standing elim) standing hne
+      have hx : x ∈ standing := by rw [hst]; simp
+      have hmin : ∀ y ∈ standing, tally ballots x elim ≤ tally ballots y elim := by
+        intro y hy
+        rw [← roundTallies_spec ballots standing elim hnd x hx, ← roundTallies_spec ballots standing elim hnd y hy]
+        obtain ⟨x', p', q', hpick', hst', hp', hq'⟩ :=
+          pickMin_spec (roundTallies ballots standing elim) standing hne
+        rw [hpick] at hpick'
+        have hxx : x = x' := by injection hpick' with h1; exact (Prod.mk.inj h1).1
+        subst hxx
+        rw [hst'] at hy
+        rcases List.mem_append.1 hy with h1 | h1
+        · exact Nat.le_of_lt (hp' y h1)
+        · rcases List.mem_cons.1 h1 with rfl | h1
+          · exact Nat.le_refl _
+          · exact hq' y h1
+      have hlen : (standing.erase x).length = standing.length - 1 := List.length_erase_of_mem hx
+      have hne' : standing.erase x ≠ [] := by intro h0; rw [h0] at hlen; simp at hlen; omega
+      obtain ⟨order, s0, h1, h2, h3⟩ := ih (standing.erase x) (elim ++ [x]) (hnd.erase x) hne' (by omega)
+      refine ⟨x :: order, s0, ?_, ?_, ?_⟩
+      · simp only [simLoop, if_pos hl, hpick]
+        rw [h1]; simp
+      · exact (List.Perm.cons x h2).trans (List.perm_cons_erase hx).symm
+      · intro p' z q' hsplit y hy
+        cases p' with
+        | nil =>
+          simp only [List.cons_append, List.nil_append, List.cons.injEq] at hsplit
+          obtain ⟨rfl, rfl⟩ := hsplit
+          simp only [List.append_nil]
+          exact hmin y (List.mem_of_mem_erase (h2.mem_iff.1 hy))
+        | cons x' p' =>
+          simp only [List.cons_append, List.cons.injEq] at hsplit
+          obtain ⟨rfl, hsplit⟩ := hsplit
+          have := h3 p' z q' hsplit y hy
+          simpa using this
+    · obtain ⟨s0, rfl⟩ := base standing elim hne hl
+      exact ⟨[], s0, by simp [simLoop], List.Perm.refl _, fin s0 elim⟩
+
 end Shangrla.Simp
